@@ -113,6 +113,17 @@ def judge(ctx, doc, toc, case, where, default_styles, title="$case"):
     if title:
         ctx.check(len(titles) == 1 and odfread.ws_text(titles[0][0]) == title and ib[0] is titles[0], ("C20", where, "title"),
                   f"title {title!r} not kept first: {[odfread.ws_text(t) for t in titles]}", case)
+    if default_styles and entries:
+        # every entry uses a paragraph style, and that style exists in the document (once)
+        sroot = odfread.parse(doc.styles.serialize())
+        known = [st_.get(odfread.q("style:name")) for r_ in (root, sroot) for st_ in r_.iter(odfread.q("style:style"))
+                 if st_.get(odfread.q("style:family")) == "paragraph"]
+        for p in entries:
+            sn = p.get(odfread.q("text:style-name"))
+            if sn and sn.rsplit("_", 1)[-1].isdigit() and int(sn.rsplit("_", 1)[-1]) > 10:
+                continue  # ODF defines ten outline levels; deeper headings are outside the property (the library has no style for them)
+            ctx.check(sn is not None and known.count(sn) == 1, ("C20", where, "entry-style-missing"),
+                      f"TOC entry {odfread.ws_text(p)!r} uses paragraph style {sn!r}, defined {known.count(sn)} time(s) in the document", case)
     others = [ch.tag for ch in ib if ch.tag not in (odfread.T_P, odfread.q("text:index-title"))]
     ctx.check(not others, ("C20", where, "foreign-children"), f"index body holds {others}", case)
     # the heading-listing tool reports the same outline
@@ -133,6 +144,9 @@ def _inner(h):
     from props.c09 import linear
 
     return linear(h)
+
+
+_PREVIOUS = None
 
 
 def run_case(case, ctx):
@@ -200,6 +214,14 @@ def run_case(case, ctx):
         with ctx.guard(("C20", "fill", "exception"), case):
             toc.fill()
             judge(ctx, doc, toc, case, "fill", True, title)
+    # documents are independent: filling this one must not have taken anything from the one filled before it in this process
+    global _PREVIOUS
+    if _PREVIOUS is not None:
+        pdoc, pcase, pxml = _PREVIOUS
+        ctx.check(pdoc.content.serialize() == pxml, ("C20", "fill", "changes-another-document"),
+                  f"filling a TOC in one document changed the content.xml of the document filled before it (previous case: {str(pcase)[:300]})",
+                  {"pair": [pcase, case]})
+    _PREVIOUS = (doc, case, doc.content.serialize()) if n_fill else None
     levels = [it["level"] for it in case["items"] if it["k"] == "h"]
     skip_then_shallow = any(levels[i + 1] - levels[i] > 1 and any(l2 < levels[i + 1] for l2 in levels[i + 2:]) for i in range(len(levels) - 1))
     markup = any(it["k"] == "h" and (it.get("span") or "  " in it["text"] or it["text"] != it["text"].strip() or "\t" in it["text"]) for it in case["items"])
@@ -209,6 +231,16 @@ def run_case(case, ctx):
 
 
 def replay(case, ctx):
+    if "pair" in case:
+        # two documents filled one after the other in the same process
+        global _PREVIOUS
+        _PREVIOUS = None
+        for c_ in case["pair"]:
+            try:
+                run_case(c_, ctx)
+            except Abandon:
+                pass
+        return
     try:
         run_case(case, ctx)
     except Abandon:
